@@ -1590,3 +1590,11 @@ TABLE["C05"] += [
       (MW, "                with open(path_to_file, 'w', encoding=\"UTF-8\") as f:\n                    f.write(c[1])\n",
        "                if not (osp.isfile(path_to_file) and osp.getsize(path_to_file) == len(c[1].encode('UTF-8'))):\n                    with open(path_to_file, 'w', encoding=\"UTF-8\") as f:\n                        f.write(c[1])\n")),
 ]
+
+# round 8
+_DUNDER_TAIL = "            function_call = \"return py::make_iterator(self->begin(), self->end());\"\n"
+TABLE["C07"] += [
+    B("unknown-dunder-name-half-wrapped", {"V9"}, (PW, "        if method.name == 'len':\n            function_call = ", "        function_call = \"\"\n        if method.name == 'len':\n            function_call = ")),
+    B("unknown-dunder-name-gets-an-empty-body", {"V9"}, (PW, _DUNDER_TAIL, _DUNDER_TAIL + "        else:\n            function_call = \"\"\n")),
+    N("unknown-dunder-name-raises", (PW, _DUNDER_TAIL, _DUNDER_TAIL + "        else:\n            raise ValueError(\"unsupported dunder method \" + method.name)\n")),
+]
